@@ -180,3 +180,68 @@ func leanPageTurns(pts []pageTurn, ok bool) string {
 	b.WriteString("]\n")
 	return b.String()
 }
+
+// cancelFact: a context.WithCancel / WithTimeout / WithDeadline in the code in scope and whether
+// the very next statement is `defer cancel()`.  A goroutine started with such a context and
+// parked in a Session send stays registered for its request id until the context ends: if the
+// function returns without cancelling, a late reply with that id is handed to a goroutine
+// nobody listens to any more, which never closes the response (Serve waits for ever).
+type cancelFact struct {
+	Fn       string
+	Deferred bool
+}
+
+func cancelFactsOf(l *loaded, filter func(string) bool) []cancelFact {
+	var out []cancelFact
+	for i, file := range l.Files {
+		if filter != nil && !filter(l.Names[i]) {
+			continue
+		}
+		for _, d := range file.Decls {
+			fd, ok := d.(*ast.FuncDecl)
+			if !ok || fd.Body == nil {
+				continue
+			}
+			name := l.Pkg.Name() + "." + recvName(fd) + fd.Name.Name
+			var blocks func(list []ast.Stmt)
+			blocks = func(list []ast.Stmt) {
+				for j, st := range list {
+					if as, ok := st.(*ast.AssignStmt); ok && len(as.Lhs) == 2 && len(as.Rhs) == 1 {
+						if call, ok := as.Rhs[0].(*ast.CallExpr); ok {
+							if sel, ok := call.Fun.(*ast.SelectorExpr); ok {
+								if pk, ok := sel.X.(*ast.Ident); ok && pk.Name == "context" && strings.HasPrefix(sel.Sel.Name, "With") && sel.Sel.Name != "WithValue" {
+									cancelName := types.ExprString(as.Lhs[1])
+									deferred := false
+									if j+1 < len(list) {
+										if ds, ok := list[j+1].(*ast.DeferStmt); ok && types.ExprString(ds.Call.Fun) == cancelName {
+											deferred = true
+										}
+									}
+									out = append(out, cancelFact{Fn: name, Deferred: deferred})
+								}
+							}
+						}
+					}
+					ast.Inspect(st, func(n ast.Node) bool {
+						switch n := n.(type) {
+						case *ast.BlockStmt:
+							if n != nil && ast.Node(n) != ast.Node(st) {
+								blocks(n.List)
+								return false
+							}
+						case *ast.CaseClause:
+							blocks(n.Body)
+							return false
+						case *ast.CommClause:
+							blocks(n.Body)
+							return false
+						}
+						return true
+					})
+				}
+			}
+			blocks(fd.Body.List)
+		}
+	}
+	return out
+}
